@@ -219,3 +219,24 @@ Proof. exact ties_kept_and_flagged_example. Qed.
 Example C08_other_strategies :
   resolve Merge [locA; locB] = Raises 3 /\ model_out IgnoreMultimapper [locA; locB] = Ok [(Suspended, Unique, false); (Suspended, Unique, true)].
 Proof. exact other_strategies. Qed.
+
+(* ==== composed with C05 (coq/Accounting.v): the retained key set of a read behind the loader does not depend on the order in which the
+   sub-regions and clusters of a chromosome are processed.  `iq_emitted` = the (sub-region, alignment, verdict) triples in processing order,
+   `number` gives them assignment ids 0, 1, 2, ... in the order of the list: any rearrangement em' of the triples (which then carry OTHER
+   assignment ids) yields the same key set.  For all files, verdict functions (never `suspended`) and both memory modes. *)
+From IQ Require Import Regions Accounting.
+Theorem C08_C05_kept_records_independent_of_region_order :
+  forall (chrom:Z) (read_of:aln -> Z) (secondary:aln -> bool) (verdict_of:iv -> aln -> option vd),
+  (forall reg a v, verdict_of reg a = Some v -> v_ty v <> Suspended) ->
+  forall (m:mode) (file:list aln) (em':list (iv * aln * vd)) rid, Permutation (iq_emitted verdict_of m file) em' ->
+  forall k, In k (map key_of (kept_records chrom (iq_stream chrom read_of secondary verdict_of m file) rid)) <->
+            In k (map key_of (kept_records chrom (number chrom read_of secondary em') rid)).
+Proof. exact iq_kept_records_independent_of_region_order. Qed.
+Print Assumptions C08_C05_kept_records_independent_of_region_order.
+
+(* the same key set as Multimap2's kept_keys of the read's group *)
+Theorem C08_C05_kept_records_keys : forall (chrom:Z) (all:list rec),
+  (forall r, In r all -> chr r = chrom) -> NoDup (map aid all) -> (forall r, In r all -> ty r <> Suspended) ->
+  forall rid k, In k (map key_of (kept_records chrom all rid)) <-> In k (kept_keys (group_of all rid)).
+Proof. exact kept_records_keys. Qed.
+Print Assumptions C08_C05_kept_records_keys.
